@@ -6,7 +6,8 @@ import re
 from typing import Dict, List, Optional, Set, Tuple
 
 from ..core import AnalysisError, RuleSpec
-from ..pymodel import call_name
+from ..pymodel import PyModel, call_name
+from .. import astq
 from . import c15
 
 EXPLANATION = (
@@ -42,10 +43,37 @@ def r1_one_docstring_read(ctx, rep):
             ok = arg.endswith("settings.docmark")
             rep.ob(f"{q} reads with the configured docmark", ok, f"marker argument `{arg}`", py.nloc(c), nontrivial=False)
     rd = py.func("sourceform.read_docstring")
-    t = ast.unparse(rd)
-    ok = "length = len(docmark)" in t and "line[length:]" in t and "source.pass_back(line)" in t and \
-        ".startswith(docmark)" in t
-    rep.ob("read_docstring strips len(marker) and passes back the first non-doc line", ok, "", py.nloc(rd))
+    # defaults of optional parameters take part in the evaluation (keep_marker=False style switches)
+    defaults = {}
+    pos = rd.args.args
+    for a, d in zip(pos[len(pos) - len(rd.args.defaults):], rd.args.defaults):
+        if isinstance(d, ast.Constant):
+            defaults[a.arg] = d.value
+    marker_p = rd.args.args[1].arg
+
+    def simplify(e: ast.AST) -> ast.AST:
+        while isinstance(e, ast.IfExp):
+            v = py.eval_const(e.test, defaults)
+            if v is PyModel._UNKNOWN:
+                break
+            e = e.body if v else e.orelse
+        return e
+    slices = [n for n in ast.walk(rd) if isinstance(n, ast.Subscript) and isinstance(n.slice, ast.Slice) and n.slice.lower is not None
+              and n.slice.upper is None]
+    strip_ok = False
+    for sl in slices:
+        for x in astq.expand_locals(sl.slice.lower, rd):
+            x = simplify(x)
+            if isinstance(x, ast.Call) and call_name(x) == "len" and ast.unparse(x.args[0]) == marker_p:
+                strip_ok = True
+    removeprefix = any(isinstance(c, ast.Call) and isinstance(c.func, ast.Attribute) and c.func.attr == "removeprefix"
+                       and ast.unparse(c.args[0]) == marker_p for c in ast.walk(rd))
+    tests = any(isinstance(c, ast.Call) and isinstance(c.func, ast.Attribute) and c.func.attr == "startswith"
+                and c.args and ast.unparse(c.args[0]) == marker_p for c in ast.walk(rd))
+    back = any(isinstance(c, ast.Call) and isinstance(c.func, ast.Attribute) and c.func.attr == "pass_back" for c in ast.walk(rd))
+    ok = (strip_ok or removeprefix) and tests and back
+    rep.ob("read_docstring strips len(marker) and passes back the first non-doc line", ok,
+           "" if ok else f"strip by marker length: {strip_ok or removeprefix}; startswith(marker) test: {tests}; pass_back: {back}", py.nloc(rd))
     # FINAL arm: only the last finaliser gets the reader
     fa = cs.arm_by_regex("FINAL_RE")
     withsrc = [c for c in fa.constructs if c.cls == "FortranFinalProc" and len(c.node.args) >= 3]
@@ -92,51 +120,68 @@ def r2_marker_length(ctx, rep):
            f"scanned as code)", py.nloc(doc_if))
     # reader substitution branches
     fn = py.func("FortranReader.__next__")
-    pairs = {"self.predoc_re": "self.predocmark", "self.predoc_alt_re": "self.predocmark_alt",
-             "self.doc_alt_re": "self.docmark_alt"}
-    stmts = list(ast.walk(fn))
-    for n in stmts:
-        if isinstance(n, ast.Assign) and ast.unparse(n.targets[0]) == "match" and isinstance(n.value, ast.Call) \
-                and call_name(n.value) == "_match_docmark":
-            rx = ast.unparse(n.value.args[0])
-            if rx not in pairs:
+    init = py.func("FortranReader.__init__")
+    # regex attribute -> marker attribute, from the constructor:  self.X_re = _compile_docmark(<marker>)
+    pairs: Dict[str, str] = {}
+    for n in ast.walk(init):
+        if isinstance(n, ast.Assign) and isinstance(n.value, ast.Call) and call_name(n.value).endswith("_compile_docmark") and n.value.args:
+            marker = ast.unparse(n.value.args[0])
+            stored = [ast.unparse(t) for t, v in [(x.targets[0], x.value) for x in ast.walk(init) if isinstance(x, ast.Assign)]
+                      if ast.unparse(v) == marker and ast.unparse(t).startswith("self.")]
+            pairs[ast.unparse(n.targets[0])] = stored[0] if stored else f"self.{marker}"
+    plain = [k for k, v in pairs.items() if v.endswith(".docmark")]
+    if len(pairs) < 4 or not plain:
+        raise AnalysisError(f"FortranReader.__init__: marker regex table not recognised ({pairs})")
+    ev = astq.trace(fn, astq.class_method_resolver(py, "FortranReader", "reader"))
+    marks = [(i, e) for i, e in enumerate(ev) if e.kind == "assign" and isinstance(e.value, ast.Call)
+             and call_name(e.value).endswith("_match_docmark") and e.value.args]
+    for j, (i, e) in enumerate(marks):
+        rx = ast.unparse(e.value.args[0])
+        if rx not in pairs or rx in plain:
+            continue
+        end = marks[j + 1][0] if j + 1 < len(marks) else len(ev)
+        mvar = e.target
+        lens: Set[str] = set()
+        for x in ev[i + 1:end]:
+            if not any(c == mvar for c in x.cond_texts()):
                 continue
-            # the following `if match:` block
-            par = py.parents[n]
-            body = par.body if hasattr(par, "body") else []
-            idx = body.index(n)
-            nxt = body[idx + 1] if idx + 1 < len(body) else None
-            if not (isinstance(nxt, ast.If) and ast.unparse(nxt.test) == "match"):
-                raise AnalysisError(f"reader: `if match:` after {rx} not found")
-            t = ast.unparse(nxt)
-            m = re.search(r"tmp = tmp\[:1\] \+ self\.docmark \+ tmp\[1 \+ len\((self\.\w+)\):\]", t)
-            ok = m is not None and m.group(1) == pairs[rx]
-            rep.ob(f"reader: {rx} strips {pairs[rx]}", ok,
-                   "the matched marker is replaced by the plain doc marker using its own length" if ok else
-                   f"the branch for {rx} strips `{m.group(1) if m else '?'}` (copy/paste slip): markers of different "
-                   f"length corrupt the doc text", py.nloc(nxt))
-    t = ast.unparse(fn)
-    ok = "self.docbuffer.append(match.group(4))" in t and "line = line[0:match.start(4)]" in t
-    rep.ob("reader: plain doc comment is cut at the marker position", ok, "", py.nloc(fn))
-    # alternate-block state resets
-    resets = [n for n in ast.walk(fn) if isinstance(n, ast.If) and ast.unparse(n.body[0]) == "self.reading_alt = 0"
-              and len(n.body) == 1]
-    ok = any("len(line.strip()) == 0 or" in ast.unparse(n.test) for n in resets)
+            if x.kind in ("assign", "return") and x.value is not None:
+                lens |= set(re.findall(r"len\((self\.\w+)\)", x.text(x.value)))
+        ok = lens == {pairs[rx]}
+        rep.ob(f"reader: {rx} strips {pairs[rx]}", ok,
+               "the matched marker is replaced by the plain doc marker using its own length" if ok else
+               f"the branch for {rx} strips `{sorted(lens) or '?'}` (copy/paste slip): markers of different "
+               f"length corrupt the doc text", py.nloc(e.node))
+    cut = None
+    for j, (i, e) in enumerate(marks):
+        if ast.unparse(e.value.args[0]) in plain:
+            end = marks[j + 1][0] if j + 1 < len(marks) else len(ev)
+            seg = [x for x in ev[i + 1:end] if any(c == e.target for c in x.cond_texts())]
+            app = any(x.kind == "call" and call_name(x.node) == "self.docbuffer.append" and "group(4)" in x.text() for x in seg)
+            cutl = any(x.kind == "assign" and x.target == "line" and "start(4)" in x.text(x.value) for x in seg)
+            cut = app and cutl
+    rep.ob("reader: plain doc comment is cut at the marker position", bool(cut), "", py.nloc(fn))
+    # alternate-block state resets: `reading_alt` back to 0 on a blank line (or a non-comment line)
+    def blank_test(c: str) -> bool:
+        return re.search(r"len\(line\.strip\(\)\) == 0|not line\.strip\(\)|line\.strip\(\) == ''", c) is not None
+    resets = [e for e in ev if e.kind == "assign" and e.target == "self.reading_alt" and ast.unparse(e.value) == "0"]
+    ok = any(any(blank_test(c) and not c.startswith("not (") for c in e.cond_texts()) for e in resets)
     rep.ob("reader: a blank line ends an alternate (block) doc comment", ok,
            "`reading_alt` is reset on a blank line or a non-comment line" if ok else
            "`reading_alt` is no longer reset by a blank line: ordinary `!` comments after a `!*` block and a blank "
-           "line are promoted to documentation of the previous entity", py.nloc(resets[0]) if resets else py.nloc(fn))
-    resets2 = [n for n in ast.walk(fn) if isinstance(n, ast.If) and ast.unparse(n.body[0]) == "reading_predoc_alt = 0"
-               and len(n.body) == 1]
-    ok = any("len(line.strip()) != 0 and" in ast.unparse(n.test) for n in resets2)
-    rep.ob("reader: code ends an alternate preceding block", ok, "", py.nloc(resets2[0]) if resets2 else py.nloc(fn))
+           "line are promoted to documentation of the previous entity", py.nloc(resets[0].node) if resets else py.nloc(fn))
+    resets2 = [e for e in ev if e.kind == "assign" and e.target == "reading_predoc_alt" and ast.unparse(e.value) == "0"]
+    ok = any(any(re.search(r"!= '!'|not .*startswith\('!'\)", c) for c in e.cond_texts()) for e in resets2)
+    rep.ob("reader: code ends an alternate preceding block", ok, "", py.nloc(resets2[0].node) if resets2 else py.nloc(fn))
     # GenericSource uses remove_prefixes
     gs = py.func("GenericSource.parse_file")
-    ok = ast.unparse(gs).count("remove_prefixes(") >= 3
+    ok = len([c for c in py.walk_calls(gs) if call_name(c).endswith("remove_prefixes")]) >= 3
     rep.ob("GenericSource strips markers by prefix, not by offset", ok, "", py.nloc(gs))
-    # docmarks must differ pairwise (settings + reader)
+    # docmarks must differ pairwise (settings)
     pi = py.func("ProjectSettings.__post_init__")
-    ok = "combinations(docmarks, 2)" in ast.unparse(pi)
+    pev = astq.trace(pi)
+    ok = any(e.kind == "raise" and any("combinations" in ast.unparse(l.iter) and "docmark" in " ".join(
+        ast.unparse(x) for x in astq.expand_locals(l.iter, pi)) for l in e.loops) for e in pev)
     rep.ob("settings reject equal doc markers", ok, "", py.nloc(pi))
 
 
